@@ -115,6 +115,9 @@ let dispatch (op : string) (x : v) : v =
   | "cube_roundtrip", [want_wav; wav; row] ->
       let (w, r) = M.cube_roundtrip (to_bool want_wav) (to_list to_z wav) (to_list to_z row) in
       L [of_list of_z w; of_list of_z r]
+  | "convert", [fa; ka; fb; kb; nu; d; xs] ->
+      let fam (x : v) : M.family = match x with S "Fnu" -> M.Fnu | S "Fint" -> M.Fint | S "Lum" -> M.Lum | _ -> raise (Bad "family") in
+      of_list (fun x -> of_q (M.convert (fam fa) (to_q ka) (fam fb) (to_q kb) (to_q nu) (to_q d) (to_q x))) (args xs)
   | "ndist", [l; step] -> of_z (M.ndist (to_q l) (to_q step))
   | "gridlog", [lo; hi; n] -> of_list of_q (M.gridlog_m (to_q lo) (to_q hi) (to_nat n))
   | "rank", [chi] -> of_list of_nat (M.rank_m (to_list to_xnum chi))
